@@ -128,6 +128,7 @@ Ev(e, env, st, ln, d) ==
          IN IF r.s # "ok" THEN r
             ELSE IF e.tg.t = "id"
                  THEN LET i == LookupB(env, e.tg.n) IN OkR(r.v, SetCell(r.st, env[i].c, r.v))
+                 ELSE IF e.tg.t # "idx" THEN UnspecR(r.st)      \* a packet property: Packet.tla's business
                  ELSE LET ra == Ev(e.tg.a, env, r.st, ln, d)
                       IN IF ra.s # "ok" THEN ra ELSE
                          LET ri == Ev(e.tg.i, env, ra.st, ln, d)
@@ -262,11 +263,14 @@ Ex(s, env, st, inblock, d) ==
 \* ---------------------------- static rules ---------------------------------
 (* What the compiler must reject: a use of a name with no visible binding,     *)
 (* break / continue outside a loop or naming an unknown label, return outside  *)
-(* a function body, and match arms whose patterns differ in type.              *)
+(* a function body, match arms whose patterns differ in type, and an           *)
+(* assignment whose target is not a variable, an element or a property         *)
+(* ("lvalue": null = 1, f() = 1, [1] = 2, $1 = 2 ... have nowhere to store).    *)
 PredefNames == BuiltinNames \cup {"argv", "NP", "PL", "WL", "TSS", "TSU", "stdin", "stdout", "stderr"}
 
 RECURSIVE SE(_, _), SS(_, _), SBlock(_, _)
-\* sc = [names, loops (set of labels incl. "" when inside a loop), infn]
+\* sc = [names, user (the names the program itself has bound), loops (set of labels incl. "" when inside a loop), infn]
+Bind(sc, nms) == [sc EXCEPT !.names = @ \cup nms, !.user = @ \cup nms]
 UnionSeq(f(_), xs) == FoldLeft(LAMBDA acc, x : acc \cup f(x), {}, xs)
 PatKind(p) == CASE p.t = "pdef" -> "any" [] p.t = "plit" -> p.v.k [] p.t = "prange" -> p.lo.k
 SE(e, sc) ==
@@ -275,6 +279,8 @@ SE(e, sc) ==
     [] e.t = "un" -> SE(e.e, sc)
     [] e.t = "bin" -> SE(e.l, sc) \cup SE(e.r, sc)
     [] e.t = "asg" -> SE(e.e, sc) \cup SE(e.tg, sc)
+                      \cup (IF e.tg.t \in {"idx", "dot"} \/ (e.tg.t = "id" /\ (e.tg.n \in sc.user \/ e.tg.n \notin sc.names))
+                            THEN {} ELSE {"lvalue"})       \* (a predefined name is not a variable either)
     [] e.t = "idx" -> SE(e.a, sc) \cup SE(e.i, sc)
     [] e.t = "dollar" -> {}
     [] e.t = "dot" -> SE(e.e, sc)
@@ -282,8 +288,8 @@ SE(e, sc) ==
     [] e.t = "map" -> UnionSeq(LAMBDA kv : SE(kv[1], sc) \cup SE(kv[2], sc), e.kvs)
     [] e.t = "call" -> SE(e.f, sc) \cup UnionSeq(LAMBDA x : SE(x, sc), e.as)
     [] e.t = "fn" ->
-         SBlock(e.body, [names |-> sc.names \cup {e.ps[i] : i \in 1..Len(e.ps)} \cup (IF e.n = "" THEN {} ELSE {e.n}),
-                         loops |-> {}, infn |-> TRUE])
+         SBlock(e.body, [Bind(sc, {e.ps[i] : i \in 1..Len(e.ps)} \cup (IF e.n = "" THEN {} ELSE {e.n}))
+                           EXCEPT !.loops = {}, !.infn = TRUE])
     [] e.t = "if" -> SE(e.c, sc) \cup SBlock(e.th, sc)
                      \cup (IF e.el.t = "none" THEN {} ELSE IF e.el.t = "blk" THEN SBlock(e.el.b, sc) ELSE SE(e.el, sc))
     [] e.t = "match" ->
@@ -292,14 +298,14 @@ SE(e, sc) ==
             \cup (IF Cardinality(kinds) > 1 THEN {"matchtypes"} ELSE {})
 \* statements of a block in order; a let extends the names for the statements after it
 SBlock(stmts, sc) ==
-  LET f(acc, s) == LET r == SS(s, [sc EXCEPT !.names = acc.names])
-                   IN [names |-> acc.names \cup r.def, faults |-> acc.faults \cup r.faults]
-  IN FoldLeft(f, [names |-> sc.names, faults |-> {}], stmts).faults
+  LET f(acc, s) == LET r == SS(s, acc.sc)
+                   IN [sc |-> Bind(acc.sc, r.def), faults |-> acc.faults \cup r.faults]
+  IN FoldLeft(f, [sc |-> sc, faults |-> {}], stmts).faults
 SS(s, sc) ==
   CASE s.t = "expr" -> [def |-> {}, faults |-> SE(s.e, sc)]
-    [] s.t = "let" -> [def |-> {s.n}, faults |-> SE(s.e, [sc EXCEPT !.names = sc.names \cup {s.n}])]
+    [] s.t = "let" -> [def |-> {s.n}, faults |-> SE(s.e, Bind(sc, {s.n}))]
     [] s.t = "fndef" -> [def |-> {s.n}, faults |-> SE([t |-> "fn", n |-> s.n, ps |-> s.ps, body |-> s.body],
-                                                        [sc EXCEPT !.names = sc.names \cup {s.n}])]
+                                                        Bind(sc, {s.n}))]
     [] s.t = "block" -> [def |-> {}, faults |-> SBlock(s.b, sc)]
     [] s.t = "while" -> [def |-> {}, faults |-> SE(s.c, [sc EXCEPT !.loops = sc.loops \cup {"", s.lb}])
                                                   \cup SBlock(s.b, [sc EXCEPT !.loops = sc.loops \cup {"", s.lb}])]
@@ -311,7 +317,7 @@ SS(s, sc) ==
                                  \cup SBlock(s.act, [sc EXCEPT !.loops = {}, !.infn = FALSE])]
     [] s.t = "ret" -> [def |-> {}, faults |-> (IF sc.infn THEN {} ELSE {"return"})
                                                \cup (IF s.e.t = "none" THEN {} ELSE SE(s.e, sc))]
-StaticFaults(prog) == SBlock(prog, [names |-> PredefNames, loops |-> {}, infn |-> FALSE])
+StaticFaults(prog) == SBlock(prog, [names |-> PredefNames, user |-> {}, loops |-> {}, infn |-> FALSE])
 
 RECURSIVE Reify(_, _, _)
 \* deep copy of a value out of the heap (fuel n bounds cyclic structures)
@@ -330,7 +336,7 @@ Reify(h, v, n) ==
 TopState0 == [st |-> EmptyStore, env |-> <<>>]
 NamesOf(env) == {env[i].n : i \in 1..Len(env)}
 \* static faults of a line in the context of the bindings made so far
-LineFaults(ts, stmts) == SBlock(stmts, [names |-> PredefNames \cup NamesOf(ts.env), loops |-> {}, infn |-> FALSE])
+LineFaults(ts, stmts) == SBlock(stmts, [names |-> PredefNames \cup NamesOf(ts.env), user |-> NamesOf(ts.env), loops |-> {}, infn |-> FALSE])
 \* run the statements of a line from a top-level state: [s, v, st, env] (s = "ok" | "err" | "unspec")
 RunStmts(ts, stmts) ==
   LET f(acc, s) == IF acc.s # "ok" THEN acc ELSE Ex(s, acc.env, acc.st, FALSE, 0)
